@@ -12,6 +12,7 @@ pub mod c20;
 pub mod c21;
 pub mod c24;
 pub mod c35;
+pub mod c36;
 pub mod c37;
 pub mod embedded_util;
 pub mod simdisk;
